@@ -11,11 +11,13 @@ import "sort"
 //  1. partial_update with returnEntity (rule of ForV1): the generator emits calls to restli.PartialUpdateWithReturnEntity /
 //     RegisterPartialUpdateWithReturnEntity, which the root module's restli package does not have.
 //  2. import cycles between generated packages. codegen/utils/type_registry.go FlagCyclicDependencies (a) walks two Go maps, so
-//     which types move to the conflictResolution package differs from run to run, and (b) only sees cycles closed by one
-//     chain of type references, not a.X -> b.Y next to b.Z -> a.W. (v2: repaired by 2969157 and 47b39ee.) The filter keeps
+//     which types move to the conflictResolution package differs from run to run, (b) only sees cycles closed by one
+//     chain of type references, not a.X -> b.Y next to b.Z -> a.W, nor cycles through an include (Record.InnerTypes omits
+//     the included records the struct embeds), and (c) two moved types with the same short name are written to the same
+//     file of conflictResolution. (v2: repaired by 2969157 and 47b39ee; v2 renames clashing types.) The filter keeps
 //     the package import graph acyclic: types are visited in declaration order and a reference from namespace A into
-//     namespace B is kept only while B does not already reach A; a dropped field / member type becomes string, a dropped
-//     include is removed. Cycles inside one namespace (recursive types) stay.
+//     namespace B is kept only while B does not already reach A; a dropped field type becomes string, a dropped union
+//     member or include is removed. Cycles inside one namespace (recursive types) stay.
 //  3. complex keys whose key record has no fields at all (the struct embeds the key record only through its fields, so
 //     the generated ComplexKeyEquals refers to a member that does not exist) or has a field with a default, own or
 //     inherited (UnmarshalRestLi of the key calls populateLocalDefaultValues, which is never generated for the key
